@@ -31,11 +31,11 @@ import (
 const c17Alphabet = "\"0xX19aFgnu "
 
 type c17Case struct {
-	Kind  string `json:"kind"`
-	Token string `json:"token,omitempty"`
+	Kind  string   `json:"kind"`
+	Token string   `json:"token,omitempty"`
 	Seq   []string `json:"seq,omitempty"`
-	N     uint64 `json:"n,omitempty"`
-	W     int    `json:"w,omitempty"`
+	N     uint64   `json:"n,omitempty"`
+	W     int      `json:"w,omitempty"`
 }
 
 func init() {
